@@ -43,7 +43,26 @@ def lean_str(s):
     return "".join(out)
 
 
+class Chars(str):
+    """a string to be emitted as a `List Char` literal (kernel-friendly: no String.toList to evaluate in proofs)"""
+
+
+def lean_char(ch):
+    o = ord(ch)
+    if ch == "'":
+        return "'\\''"
+    if ch == "\\":
+        return "'\\\\'"
+    if o < 32 or o == 127:
+        return "'\\x%02x'" % o
+    if o > 126:
+        return "(Char.ofNat %d)" % o
+    return "'%s'" % ch
+
+
 def lean_val(v):
+    if isinstance(v, Chars):
+        return "[" + ", ".join(lean_char(c) for c in v) + "]"
     if isinstance(v, bool):
         return "true" if v else "false"
     if isinstance(v, int):
@@ -149,6 +168,10 @@ def collect(repo):
         ("canContainRelativeUris", "List String", sset(M.can_contain_relative_uris)),
         ("canContainDangerousMarkup", "List String", sset(M.can_contain_dangerous_markup)),
         ("htmlTypes", "List String", sset(M.html_types)),
+        ("matchNamespacesL", "List (List Char × List Char)", [(Chars(k), Chars(v)) for k, v in sorted(M._matchnamespaces.items())]),
+        ("startHandlersL", "List (List Char)", [Chars(x) for x in handlers(strict, "_start_")]),
+        ("endHandlersL", "List (List Char)", [Chars(x) for x in handlers(strict, "_end_")]),
+        ("canBeRelativeUriL", "List (List Char)", [Chars(x) for x in sset(M.can_be_relative_uri)]),
         ("startHandlers", "List String", handlers(strict, "_start_")),
         ("endHandlers", "List String", handlers(strict, "_end_")),
         ("startHandlersLoose", "List String", handlers(loose, "_start_")),
